@@ -490,6 +490,32 @@ func c03Cases(c *h.Ctx) error {
 					c.Fail("data.Data.Unmarshal", "framing:bytes", fmt.Sprintf("ByteCount %d, %d bytes; spec %d", ds.ByteCount, len(ds.GetBytes()), ln.BC), smp)
 				}
 			}
+			// the two blocks decoded into LONG-LIVED receivers, each time after truncated prefixes of the same block (a short
+			// read followed by a retry): what a failed call leaves behind must not change the valid call that follows
+			if len(ln.Frame) >= 1+2*ln.WC+2 {
+				pblk, dblk := ln.Frame[:1+2*ln.WC], ln.Frame[1+2*ln.WC:]
+				for _, cut := range h.Cuts(len(pblk)) {
+					h.Guard(func() { c03ReusedParams.Unmarshal(append([]byte{}, pblk[:cut]...)) })
+				}
+				var n int
+				var e error
+				if pp := h.Guard(func() { n, e = c03ReusedParams.Unmarshal(append([]byte{}, pblk...)) }); pp != "" || e != nil || n != len(pblk) ||
+					int(c03ReusedParams.WordCount) != ln.WC || !bytes.Equal(c03ReusedParams.GetBytes(), ln.Words) {
+					c.Fail("parameters.Parameters.Unmarshal", "framing:reused-receiver", fmt.Sprintf("after truncated attempts on the same receiver: consumed %d of %d, WordCount %d, %d word bytes (spec %d words) %v %s",
+						n, len(pblk), c03ReusedParams.WordCount, len(c03ReusedParams.GetBytes()), ln.WC, e, pp), smp)
+					c03ReusedParams = parameters.NewParameters()
+				}
+				for _, cut := range h.Cuts(len(dblk)) {
+					h.Guard(func() { c03ReusedData.Unmarshal(append([]byte{}, dblk[:cut]...)) })
+				}
+				if pp := h.Guard(func() { n, e = c03ReusedData.Unmarshal(append([]byte{}, dblk...)) }); pp != "" || e != nil || n != len(dblk) ||
+					int(c03ReusedData.ByteCount) != ln.BC || !bytes.Equal(c03ReusedData.GetBytes(), ln.Bytes) {
+					c.Fail("data.Data.Unmarshal", "framing:reused-receiver", fmt.Sprintf("after truncated attempts on the same receiver: consumed %d of %d, ByteCount %d, %d bytes (spec %d) %v %s",
+						n, len(dblk), c03ReusedData.ByteCount, len(c03ReusedData.GetBytes()), ln.BC, e, pp), smp)
+					c03ReusedData = data.NewData()
+				}
+				c.Exec(2)
+			}
 			p := parameters.NewParameters()
 			p.AddWordsFromBytesStream(ln.Words)
 			d := data.NewData()
@@ -515,6 +541,11 @@ func c03Cases(c *h.Ctx) error {
 	c.Set("structures_reached_by_dispatch", len(dispatched))
 	return err
 }
+
+var (
+	c03ReusedParams = parameters.NewParameters()
+	c03ReusedData   = data.NewData()
+)
 
 // ---------------------------------------------------------------- histories
 
